@@ -14,38 +14,28 @@ CONFIGS = {
 O2 = ["-O2"] + WARN
 ASAN = ["-O1", "-g", "-fsanitize=address,undefined", "-fno-sanitize-recover=undefined", "-fno-omit-frame-pointer", "-D_GLIBCXX_SANITIZE_VECTOR"] + WARN
 
-HARNESSES = {
-    "boolgp": {"src": "boolgp.cpp", "cxxflags": O2, "sides": ["hp"]},
-}
+HARNESSES = {}
+PROPS = {}
+HOOK_COMMITS = []
+NOT_APPLICABLE = {}
 
 MC = "bounded-exhaustive exploration of the real library code (explicit enumeration of a finite input/history/schedule space, exact reference oracle)"
 
-PROPS = {
-    "C01": {
-        "runs": {
-            "quick": [{"harness": "boolgp", "args": ["--scope", "S1", "--nmax", 4]}],
-            "thorough": [{"harness": "boolgp", "args": ["--scope", "S1", "--nmax", 5]},
-                         {"harness": "boolgp", "args": ["--scope", "S3", "--nmax", 4]},
-                         {"harness": "boolgp", "args": ["--scope", "S2", "--nmax", 4]}],
-        },
-        "rule": "every rotation-normalised ordered tuple of distinct board-G points as subject polygon x the same over the clip board, both orientations, self-intersecting included; "
-                "x 4 clip types x 4 fill rules x PreserveCollinear x ReverseSolution x HI_PRECISION; inputs failing the exact general-position filter are skipped and counted; "
-                "a case is non-trivial when the closed solution is non-empty and differs from both input path sets",
-        "level_text": "Every input of the scope is executed on the real library and the result is compared, at every point of the plane outside the stated tolerance band (quadtree region engine, exact winding numbers), with the region defined by fill rule and clip type.",
-        "assumptions": ["inputs limited to the stated vertex/path bounds and board coordinates (plus the magnitude alphabet in the thorough tier)",
-                        "points closer than 2*r_leaf to the tolerance band are not decided (reported as rim)"],
-    },
-    "C03": {
-        "runs": {
-            "quick": [{"harness": "boolgp", "args": ["--scope", "S1", "--nmax", 4]}],
-            "thorough": [{"harness": "boolgp", "args": ["--scope", "S1", "--nmax", 5]},
-                         {"harness": "boolgp", "args": ["--scope", "S2", "--nmax", 4]}],
-        },
-        "rule": "solutions of every case of the C01 scopes (general position); a case is non-trivial when the solution is non-empty and differs from the inputs",
-        "level_text": "Every closed solution path produced in the enumerated scopes is checked against every well-formedness clause with exact integer predicates.",
-        "assumptions": ["same scopes as C01/C02/C10"],
-    },
-}
 
-HOOK_COMMITS = []
-NOT_APPLICABLE = {}
+def _load_fragments():
+    import glob, os
+    here = os.path.dirname(os.path.abspath(__file__))
+    for f in sorted(glob.glob(os.path.join(here, "reg", "*.py"))):
+        ns = {"O2": O2, "ASAN": ASAN, "WARN": WARN, "CONFIGS": CONFIGS, "MC": MC}
+        exec(compile(open(f).read(), f, "exec"), ns)
+        for k, v in ns.get("HARNESSES", {}).items():
+            assert k not in HARNESSES, "duplicate harness " + k
+            HARNESSES[k] = v
+        for k, v in ns.get("PROPS", {}).items():
+            assert k not in PROPS, "duplicate property " + k
+            PROPS[k] = v
+        NOT_APPLICABLE.update(ns.get("NOT_APPLICABLE", {}))
+        HOOK_COMMITS.extend(ns.get("HOOK_COMMITS", []))
+
+
+_load_fragments()
